@@ -79,6 +79,56 @@ def build_mir(flavour='on', quiet=True):
         lock.close()
 
 
+def build_bin_mir(flavour='on'):
+    """MIR of the binary target (src/main.rs), regenerated from the same synced tree.  Built in the library's target directory (its
+    dependencies are there already) and moved aside at once: the library's dump is found by globbing pgcat-*.mir."""
+    build_mir(flavour)
+    lock = open(os.path.join(CACHE, 'build.lock'), 'w')
+    fcntl.flock(lock, fcntl.LOCK_EX)
+    try:
+        src = os.path.join(WORK, 'src')
+        th = tree_hash(src)
+        tdir = os.path.join(CACHE, 'mir-' + flavour)
+        out = os.path.join(tdir, 'main-bin.mir')
+        stamp = os.path.join(tdir, 'stamp-bin')
+        if os.path.exists(stamp) and open(stamp).read() == th and os.path.exists(out):
+            return out, th
+        env = dict(os.environ)
+        env['CARGO_NET_OFFLINE'] = 'true'
+        env.pop('RUSTFLAGS', None)
+        before = set(glob.glob(os.path.join(tdir, 'debug', 'deps', 'pgcat-*.mir')))
+        os.utime(os.path.join(src, 'src', 'main.rs'), None)
+        cmd = ['cargo', 'rustc', '--offline', '--bin', 'pgcat', '--target-dir', tdir, '--', '--emit=mir',
+               '-C', 'overflow-checks=' + flavour, '--cfg', GUARD_CFG]
+        r = subprocess.run(cmd, cwd=src, env=env, stdout=subprocess.PIPE, stderr=subprocess.STDOUT, text=True)
+        new = [m for m in glob.glob(os.path.join(tdir, 'debug', 'deps', 'pgcat-*.mir')) if m not in before]
+        if r.returncode != 0 or len(new) != 1:
+            for m in new:
+                os.unlink(m)
+            sys.stderr.write(r.stdout[-4000:])
+            raise Inconclusive("MIR build of the binary target failed")
+        os.replace(new[0], out)
+        open(stamp, 'w').write(th)
+        return out, th
+    finally:
+        fcntl.flock(lock, fcntl.LOCK_UN)
+        lock.close()
+
+
+def load_bin_program(flavour='on'):
+    """The functions of src/main.rs as a program of their own (everything they call in the library is an environment hook or is
+    run by the library's own obligations)."""
+    mir, th = build_bin_mir(flavour)
+    funcs = mirparse.parse_file(mir)
+    src = SourceInfo()
+    src.add_tree(os.path.join(WORK, 'src', 'src'), 'src/')
+    prog = Program(funcs, src)
+    prog.tree_hash = th
+    prog.mir_path = mir
+    prog.flavour = flavour
+    return prog
+
+
 _SQLPARSER = None
 
 
